@@ -439,6 +439,22 @@ func (p *parser) parseType() TypeExpr {
 		}
 		break
 	}
+	if p.isIdent("func") {
+		// func(T1, T2) R : a function value (only usable with apply)
+		p.next()
+		p.expectOp("(")
+		var ps []string
+		for !p.isOp(")") {
+			ps = append(ps, p.parseType().Text)
+			if p.isOp(",") {
+				p.next()
+			}
+		}
+		p.expectOp(")")
+		r := p.parseType()
+		b.WriteString("func(" + strings.Join(ps, ",") + ")" + r.Text)
+		return TypeExpr{b.String()}
+	}
 	if p.isIdent("map") {
 		p.next()
 		p.expectOp("[")
